@@ -83,9 +83,11 @@ CHECKS = {
         technique="contracts on AceGroup._line_to_oace (ghost log) and helpers.is_line_for_acl (loop invariant + decreases) discharged by own VC generator (z3 + cvc5 for strings); bounded accounting identity with a capturing log handler",
         text="Discharged: on every path of _line_to_oace a non-empty line that yields no item either starts with a documented ignorable prefix or produced a warning whose "
              "text contains the line (NetmaskValueError / TypeError propagate), and a kept item comes from a line of the documented shape; is_line_for_acl decides exactly "
-             "that shape and terminates with a bounded stack. Bounded (labelled): Acl / AceGroup / AddrGroup built from all sequences of <= 3/4 lines over valid, ignorable "
+             "that shape and terminates with a bounded stack; Acl.line.fset (the loop over the body lines, callee by contract, the log as ghost heap state): every body line is "
+             "represented by a stored object, or carries a documented prefix, or was warned about; every stored object stands for a body line of the documented shape; no more "
+             "objects than body lines (assumed: helpers.lines_wo_spaces, Acl._parse_type_name, Acl.items.fset of an ungrouped ACL). Bounded (labelled): Acl / AceGroup / AddrGroup built from all sequences of <= 3/4 lines over valid, ignorable "
              "and invalid kinds, checked against the accounting identity with captured log records.",
-        note="_line_to_ace (regex front end) is an assumed contract; the order/accounting of the line setters' loops is bounded only. " + TB),
+        note="_line_to_ace (regex front end) is an assumed contract; item ORDER and the AceGroup / AddrGroup line setters are bounded only. " + TB),
     "C10": dict(
         level="proof", design_ref="DESIGN.md 5/C10",
         technique="contracts + loop invariants + frame conditions on the real resequence methods and the decorator wrapper, discharged by own VC generator (z3/cvc5)",
